@@ -125,6 +125,76 @@ func c07Run(r *Run) {
 		})
 	}
 
+	// visibility gates: package functions that consult GetModifier() of a declaration and answer with a
+	// control; an access-path type is "gated" when an evaluation entry of it tests such a gate's result
+	gates := map[types.Object]bool{}
+	for _, fd := range funcDecls(npkg) {
+		if fd.Recv != nil || fd.Type.Results == nil {
+			continue
+		}
+		sig, ok := info.Defs[fd.Name].Type().(*types.Signature)
+		if !ok || sig.Results().Len() != 1 || !isNamed(sig.Results().At(0).Type(), dataPath, "Control") {
+			continue
+		}
+		mod := false
+		ast.Inspect(fd.Body, func(n ast.Node) bool {
+			if c, ok := n.(*ast.CallExpr); ok {
+				if se, ok := ast.Unparen(c.Fun).(*ast.SelectorExpr); ok && se.Sel.Name == "GetModifier" {
+					mod = true
+				}
+			}
+			return true
+		})
+		if mod {
+			gates[info.Defs[fd.Name]] = true
+		}
+	}
+	gatedType := map[string]bool{}
+	{
+		byType := map[string][]*ast.FuncDecl{}
+		for _, fd := range funcDecls(npkg) {
+			if tn := recvTypeName(fd); tn != "" {
+				byType[tn] = append(byType[tn], fd)
+			}
+		}
+		for tn, fds := range byType {
+			for _, fd := range fds {
+				switch fd.Name.Name {
+				case "GetValue", "SetValue", "GetZVal", "SetProperty":
+				default:
+					continue
+				}
+				ast.Inspect(fd.Body, func(n ast.Node) bool {
+					is, ok := n.(*ast.IfStmt)
+					if !ok || is.Init == nil {
+						return true
+					}
+					as, ok := is.Init.(*ast.AssignStmt)
+					if !ok || len(as.Rhs) != 1 {
+						return true
+					}
+					c, ok := ast.Unparen(as.Rhs[0]).(*ast.CallExpr)
+					if !ok || !gates[calleeOf(info, c)] {
+						return true
+					}
+					for _, st := range is.Body.List {
+						if _, ok := st.(*ast.ReturnStmt); ok {
+							gatedType[tn+"."+fd.Name.Name] = true
+						}
+					}
+					return true
+				})
+			}
+		}
+	}
+	// a read entry (GetValue) covers the lookups of the helpers it calls; a write entry (SetProperty) its own
+	gatedFor := func(fd *ast.FuncDecl) bool {
+		tn := recvTypeName(fd)
+		if fd.Name.Name == "SetProperty" || fd.Name.Name == "SetValue" {
+			return gatedType[tn+"."+fd.Name.Name]
+		}
+		return gatedType[tn+".GetValue"]
+	}
 	r.curRule = "C07-VIS"
 	nodesSeen := map[string]bool{}
 	type privArm struct {
@@ -422,6 +492,10 @@ func c07Run(r *Run) {
 					}
 				}
 			} else if outside && armed && isNamed(res0, dataPath, "Value") && strings.Contains(name, "Static") {
+				if gatedFor(fd) {
+					add("static-value-lookup:"+name, c.Pos(), true, "the value is fetched bare, and the evaluation entry of this node tests a visibility gate (a function that consults the declaration's GetModifier()) before handing it out")
+					return s
+				}
 				add("static-value-lookup:"+name, c.Pos(), false, "the static member is fetched as a bare value ("+name+" returns data.Value): this access path has no declaration to test, so private/protected static members are readable from anywhere")
 			}
 			return s
@@ -519,10 +593,27 @@ func c07Run(r *Run) {
 
 	// ---- TYPE ----
 	r.curRule = "C07-TYPE"
-	callsIs := func(fd *ast.FuncDecl) (int, token.Pos) {
+	declByObj := map[types.Object]*ast.FuncDecl{}
+	for _, fd := range funcDecls(npkg) {
+		declByObj[info.Defs[fd.Name]] = fd
+	}
+	var callsIsDepth func(fd *ast.FuncDecl, depth int) (int, token.Pos)
+	callsIs := func(fd *ast.FuncDecl) (int, token.Pos) { return callsIsDepth(fd, 0) }
+	callsIsDepth = func(fd *ast.FuncDecl, depth int) (int, token.Pos) {
 		n, pos := 0, token.NoPos
 		ast.Inspect(fd.Body, func(m ast.Node) bool {
 			if c, ok := m.(*ast.CallExpr); ok {
+				// a helper of this package that answers with a control and consults the type itself
+				if h := declByObj[calleeOf(info, c)]; h != nil && h != fd && depth < 2 && h.Recv == nil {
+					if sig, ok := info.Defs[h.Name].Type().(*types.Signature); ok && sig.Results().Len() == 1 && isNamed(sig.Results().At(0).Type(), dataPath, "Control") {
+						if k, _ := callsIsDepth(h, depth+1); k > 0 {
+							n++
+							if !pos.IsValid() {
+								pos = c.Pos()
+							}
+						}
+					}
+				}
 				if se, ok := ast.Unparen(c.Fun).(*ast.SelectorExpr); ok && se.Sel.Name == "Is" && len(c.Args) == 1 {
 					if t := info.TypeOf(se.X); t != nil && isNamed(t, dataPath, "Types") {
 						n++
